@@ -2,7 +2,7 @@
     [Gen.Callbacks] is regenerated from contract/{vm_callback,vm,vm_state,internal_operations}.go
     by gen/gen_vmguard on every run (the VM cannot be built or run here: the tie is the translator). *)
 From Coq Require Import List Bool String.
-From Verif Require Import VmGuard.Lang VmGuard.Analysis Gen.Callbacks.
+From Verif Require Import VmGuard.Lang VmGuard.Analysis VmGuard.CSide Gen.Callbacks Gen.CCallbacks.
 Import ListNotations.
 
 (** The analyser is sound for every program, callback list and call-depth bound: if [check]
@@ -28,6 +28,28 @@ Theorem C20_readonly_no_mutation :
   forall m k e0, In (m, k, e0) t -> forbidden k e0 = false.
 Proof. exact (analysis_sound _ _ _ C20_callbacks_checked). Qed.
 Print Assumptions C20_readonly_no_mutation.
+
+(** The C side.  Every C function registered with Lua is an entry point of contract code; its
+    body (calls of Go callbacks, luaCheckView guards, SQL statement execution) is translated by
+    lib/g6_cscan.py and checked together with the Go callbacks it calls, in every context. *)
+Definition whole_program : prog := (Gen.Callbacks.program ++ Gen.CCallbacks.c_program)%list.
+Definition entry_points : list string := (Gen.Callbacks.callbacks ++ Gen.CCallbacks.c_entries)%list.
+
+Theorem C20_c_side_checked : check whole_program entry_points 16 = true.
+Proof. vm_compute. reflexivity. Qed.
+Print Assumptions C20_c_side_checked.
+
+Theorem C20_readonly_no_mutation_c_side :
+  forall cb e t o, In cb entry_points -> good e = true ->
+  exec whole_program entry_points e (Call cb) t o ->
+  forall m k e0, In (m, k, e0) t -> forbidden k e0 = false.
+Proof. exact (analysis_sound _ _ _ C20_c_side_checked). Qed.
+Print Assumptions C20_readonly_no_mutation_c_side.
+
+(** Every Lua-registered C function and every call of a Go callback from C is a reviewed one. *)
+Theorem C20_c_inventory_reviewed : c_inventory_reviewed Gen.CCallbacks.c_inventory = true.
+Proof. vm_compute. reflexivity. Qed.
+Print Assumptions C20_c_inventory_reviewed.
 
 (** F13 (known finding, fork version 4 only): the theorems above carry the hypothesis
     [good e] = read-only and (amount >= 0 or fork version >= 5).  Without it the check finds, on
